@@ -18,7 +18,8 @@ LEVEL = "translation_validation"
 RULE = ("types drawn from a grammar over classes spread across modules whose names overlap textually (nmutils / nmpkg.nmutils, "
         "nmfoo / barnmfoo, mytyping), a class named like its module, a class containing `NoneType` in its name, nested classes "
         "1..3 deep, the target module's own classes, _io types, NoneType/Optional, Type[C], Callable, Iterator, Generator, "
-        "DefaultDict, Tuple[()], Tuple[T, ...], and anonymous TypedDicts at every container position; attached as argument / "
+        "DefaultDict, Tuple[()], Tuple[T, ...], the generics a kept source annotation can bring (Callable[[...], R] with 0..3 parameters, "
+        "Callable[..., R], Iterable/Sequence/Mapping/Awaitable/FrozenSet/...), and anonymous TypedDicts at every container position; attached as argument / "
         "return / yield types to traces of 7 functions of a target module (module-level, method, classmethod, staticmethod, "
         "nested-class method, generator) and rendered by the real ModuleStub. Oracle: the text is parsed, its import block "
         "executed, its class stubs read, every annotation evaluated in that namespace and compared structurally with the type "
@@ -62,7 +63,16 @@ def ext(sub):
     )
 
 
-general_types = st.recursive(leaf, ext, max_leaves=8)
+# generics that MonkeyType never infers but that reach the renderer from a source annotation kept under the default
+# strategy (or from a custom rewriter): parametrised Callable (0, 1, 2+ parameters, `...`) and typing's abstract containers
+_cls_leaf = st.sampled_from(CLASS_NAMES).map(lambda n: ["c", n])
+source_generics = st.one_of(
+    st.tuples(st.lists(_cls_leaf, max_size=3), _cls_leaf).map(lambda p: ["CallableP", p[0], p[1]]),
+    _cls_leaf.map(lambda t: ["CallableE", t]),
+    st.tuples(st.sampled_from(["Iterable", "Sequence", "Awaitable", "FrozenSet", "AsyncIterator", "Deque", "Collection"]), _cls_leaf).map(lambda p: ["Gen1", p[0], p[1]]),
+    st.tuples(st.sampled_from(["Mapping", "OrderedDict", "MutableMapping"]), st.sampled_from([["c", "str"], ["c", "int"]]), _cls_leaf).map(lambda p: ["Gen2", p[0], p[1], p[2]]),
+)
+general_types = st.recursive(st.one_of(leaf, leaf, leaf, source_generics), ext, max_leaves=8)
 
 
 def _flat_td(names):
@@ -115,6 +125,14 @@ def build(s, C):
         return Union[tuple(build(e, C) for e in s[1])]
     if k == "TD":
         return make_typed_dict(required_fields={n: build(t, C) for n, t in s[1]}, optional_fields={n: build(t, C) for n, t in s[2]})
+    if k == "CallableP":
+        return Callable[[build(e, C) for e in s[1]], build(s[2], C)]
+    if k == "CallableE":
+        return Callable[..., build(s[1], C)]
+    if k == "Gen1":
+        return getattr(typing, s[1])[build(s[2], C)]
+    if k == "Gen2":
+        return getattr(typing, s[1])[build(s[2], C), build(s[3], C)]
     raise ValueError(s)
 
 
@@ -295,7 +313,7 @@ def check(ctx, tspecs, k):
             mangled = {c.__name__.replace("NoneType", "None") for c in C.values() if "NoneType" in c.__name__ and c.__name__ != "NoneType"}
             if all(n in mangled for n in names):
                 ctx.fail("C11/class-name-containing-NoneType-mangled", spec, f"{names}\n{text[:1500]}")
-            elif _prefix_strip_explains(stub, text, [n for n in names if n not in mangled]):
+            elif _prefix_strip_explains(stub, text, [n for n in names if n not in mangled], _sigmods(stub, expect)):
                 ctx.fail("C11/overlapping-module-name-prefix-stripped", spec, f"{names}\n{text[:1500]}")
             else:
                 return ctx.fail("C11/name-not-provided-by-stub", spec, f"{names}\n{text[:1500]}")
@@ -308,11 +326,12 @@ def check(ctx, tspecs, k):
             return ctx.fail("C11/function-missing-from-stub", spec, f"{fn.__qualname__}\n{text}")
         info = infos[0]
         sig = inspect.signature(fn)
+        fmods = signature_modules(list(at.values()) + [rt, yt]) | {"typing"}
         for name, Tt in at.items():
             want = Tt
             if sig.parameters[name].default is None and not (oracle.origin(Tt) is Union and type(None) in oracle.args(Tt)):
                 want = Optional[Tt]
-            r = _cmp(ctx, spec, stub, info["args"].get(name), want, f"{fn.__qualname__}({name})", text, labels)
+            r = _cmp(ctx, spec, stub, info["args"].get(name), want, f"{fn.__qualname__}({name})", text, labels, fmods)
             if r:
                 return
         if yt is not None:
@@ -320,8 +339,42 @@ def check(ctx, tspecs, k):
         else:
             want = rt
         if want is not None:
-            if _cmp(ctx, spec, stub, info["returns"], want, f"{fn.__qualname__} return", text, labels):
+            if _cmp(ctx, spec, stub, info["returns"], want, f"{fn.__qualname__} return", text, labels, fmods):
                 return
+
+
+def signature_modules(types_):
+    """modules whose prefix the renderer strips from ONE signature: those of the classes and typing constructs that occur in
+    that signature's own annotations (the listed prefix-stripping finding needs both overlapping modules in one signature)"""
+    mods = set()
+
+    def walk(T):
+        if T is None or T is Ellipsis:
+            return
+        if oracle.is_anon_td(T):
+            mods.add("mypy_extensions")
+            return  # fields are rendered in the generated class body, not in the signature
+        og = oracle.origin(T)
+        if og is None:
+            m = getattr(T, "__module__", None)
+            if T is Any or m == "typing":
+                mods.add("typing")
+            elif m == "_io":
+                mods.update(("io", "_io"))
+            elif m and m != "builtins":
+                mods.add(m)
+            return
+        mods.add("typing")
+        for a in oracle.args(T):
+            if isinstance(a, (list, tuple)):
+                for x in a:
+                    walk(x)
+            else:
+                walk(a)
+
+    for T in types_:
+        walk(T)
+    return mods
 
 
 def import_table(text):
@@ -333,10 +386,10 @@ def import_table(text):
     return tab
 
 
-def strip_remnants(text):
-    """remnants `R` such that some imported module M2 = R + M1 for another imported module M1 (M1 a textual suffix):
-    stripping `M1.` from `M2.Cls` leaves `R` glued to what follows"""
-    mods = set(import_table(text)) | {"nmtarget"}
+def strip_remnants(text, mods=None):
+    """remnants `R` such that some module M2 = R + M1 for another module M1 (M1 a textual suffix), both used by the signature
+    at hand: stripping `M1.` from `M2.Cls` leaves `R` glued to what follows"""
+    mods = set(mods if mods is not None else import_table(text)) | {"nmtarget"}
     if "io" in mods:
         mods.add("_io")  # C-level io classes live in `_io`; the import block spells it `io` but both prefixes are stripped
     out = set()
@@ -347,9 +400,20 @@ def strip_remnants(text):
     return out
 
 
-def _prefix_strip_explains(stub, text, names):
-    rem = strip_remnants(text)
-    return bool(rem) and all(any(n == r.rstrip(".") or (not r.endswith(".") and n.startswith(r)) for r in rem) for n in names)
+def _prefix_strip_explains(stub, text, names, sigmods):
+    """every unresolved name sits in an annotation of a function whose OWN signature uses two overlapping modules"""
+    for n in names:
+        ok = False
+        for where, name, src in stub["unresolved"]:
+            if name != n or where == "typeddict-class-body":
+                continue
+            for mods in sigmods.get(src, []):
+                rem = strip_remnants(text, mods)
+                if any(n == r.rstrip(".") or (not r.endswith(".") and n.startswith(r)) for r in rem):
+                    ok = True
+        if not ok:
+            return False
+    return bool(names)
 
 
 def same_name_two_modules(text):
@@ -364,7 +428,26 @@ def same_name_two_modules(text):
     return out
 
 
-def _cmp(ctx, spec, stub, entry, want, where, text, labels):
+def _sigmods(stub, expect):
+    """annotation source text -> module sets of the signatures it occurs in"""
+    out = {}
+    for fn, (at, rt, yt) in expect.items():
+        qn = fn.__qualname__.split(".")
+        infos = stub["funcs"].get((tuple(qn[:-1]), qn[-1]))
+        if not infos:
+            continue
+        mods = signature_modules(list(at.values()) + [rt, yt])
+        if any(p.default is None for p in inspect.signature(fn).parameters.values()):
+            mods.add("typing")
+        if yt is not None:
+            mods.add("typing")
+        for e in list(infos[0]["args"].values()) + [infos[0]["returns"]]:
+            if e is not None:
+                out.setdefault(e[0], []).append(mods)
+    return out
+
+
+def _cmp(ctx, spec, stub, entry, want, where, text, labels, mods=None):
     if entry is None:
         ctx.fail("C11/annotation-missing", spec, f"{where}: expected {oracle.show(want)}\n{text[:1200]}")
         return True
@@ -374,7 +457,7 @@ def _cmp(ctx, spec, stub, entry, want, where, text, labels):
     except stubread.StubError as e:
         sig = f"C11/{e.kind}"
         if e.kind == "annotation-does-not-evaluate":
-            sig = _explain(src, text) or sig
+            sig = _explain(src, text, mods) or sig
         elif e.kind == "typeddict-class-body-does-not-evaluate":
             sig = "C11/name-in-generated-typeddict-class-body-not-provided"  # field text keeps its module prefix
         elif e.kind == "typeddict-class-name-collision":
@@ -382,13 +465,13 @@ def _cmp(ctx, spec, stub, entry, want, where, text, labels):
         ctx.fail(sig, spec, f"{where}: {e}\n{text[:1200]}")
         return True
     if got != oracle.canon(want):
-        sig = _explain(src, text) or "C11/annotation-denotes-other-type"
+        sig = _explain(src, text, mods) or "C11/annotation-denotes-other-type"
         ctx.fail(sig, spec, f"{where}: `{src}` evaluates to {got}, rendered type was {oracle.show(want)}\n{text[:1200]}")
         return True
     return False
 
 
-def _explain(src, text):
+def _explain(src, text, mods=None):
     """listed findings that make an annotation evaluate wrongly; decided from the annotation text and the import block"""
     toks = {n.id for n in ast.walk(ast.parse(src, mode="eval")) if isinstance(n, ast.Name)}
     for n in ast.walk(ast.parse(src, mode="eval")):
@@ -399,7 +482,7 @@ def _explain(src, text):
                 pass
     if toks & same_name_two_modules(text):
         return "C11/same-class-name-from-two-modules-collides"
-    rem = strip_remnants(text)
+    rem = strip_remnants(text, mods)
     if any(t == r.rstrip(".") or (not r.endswith(".") and t.startswith(r) and len(t) > len(r)) for t in toks for r in rem):
         return "C11/overlapping-module-name-prefix-stripped"
     return None
